@@ -19,6 +19,7 @@ import (
 	"os"
 	"os/exec"
 	"os/signal"
+	"runtime"
 	"sort"
 	"strconv"
 	"strings"
@@ -477,6 +478,14 @@ func runRealMaster() {
 	to, _ := strconv.Atoi(os.Args[5])
 	cfg := server.ZnPMServerConfig{InitProcs: init_, MaxProcs: max_, Timeout: to}
 	zns := server.NewZnPMServer(cfg)
+	// a master that has been up for a while has been through garbage collections: whatever it keeps open only by accident
+	// (an unreferenced descriptor with a finalizer) is gone by then. The scenarios are short, so the collections are forced.
+	go func() {
+		for {
+			time.Sleep(150 * time.Millisecond)
+			runtime.GC()
+		}
+	}()
 	err := zns.StartMaster(fmt.Sprintf("tcp://127.0.0.1:%d", port), cfg)
 	fmt.Fprintln(os.Stderr, "master returned:", err)
 }
